@@ -27,6 +27,7 @@ def proj(o):
             "child": {"value": o.child.value, "items": list(o.child.items),
                       "grid": [list(g) if type(g) is list else [777] for g in o.child.grid]}, "tmp": o.tmp,
             "ro": 0 if ro is Undefined or ro == 0 else ro, "kids": kids_pattern(o),
+            "wr": 0 if o.wr is None else 1 if o.wr is o.child else 2,
             "pvset": 1 if "pv" in d else 0, "pvval": (lambda x: x if type(x) is int else BAD)(d.get("pv", 0)),
             "hasx": 1 if "extra" in o._instance_traits() else 0,
             "xval": (lambda x: x if type(x) is int else BAD)(d.get("extra", 0))}
@@ -63,6 +64,7 @@ def do_copy(o, kind):
     return o.clone_traits(copy="deep")
 
 
+KEEP = []
 PVLOG = []           # calls of the handler the driver keeps on the deferred attribute pv of the CURRENT object
 
 
@@ -125,6 +127,10 @@ def step(o, dyn, op, v):
             (o.cgrid if "cgrid" in o.trait_names() else o.child.grid).append([v])
         elif op == "grid_inner":
             o.child.grid[0].append(v)
+        elif op == "wr_child":
+            o.wr = o.child
+        elif op == "wr_none":
+            o.wr = None
         elif op == "pv_assign":
             o.pv = cv
         elif op == "pv_del":
@@ -148,12 +154,13 @@ def step(o, dyn, op, v):
 
 
 OPS = ["kids_child", "kids_new", "kids_dup", "n_assign", "n_assign", "tmp_assign", "ro_assign", "xs_append", "xs_append", "xs_assign", "nested_append", "nested_inner", "dl_set",
-       "dl_inner", "s_add", "child_value", "child_items", "grid_append", "grid_inner", "addx", "extra_assign", "pv_assign", "pv_assign", "pv_del"]
+       "dl_inner", "s_add", "child_value", "child_items", "grid_append", "grid_inner", "addx", "extra_assign", "pv_assign", "pv_assign", "pv_del", "wr_child", "wr_none"]
 
 
 def run_history(rnd, steps, t):
     build.install()
     from .persist_classes import Obj, ObjCore, ObjP
+    del KEEP[:]
     shape = rnd.choice([0, 1, 2])           # 0: no listener attributes at all; 1: legacy listeners; 2: plus a prototyped one
     haspv = shape == 2
     o = (ObjCore, Obj, ObjP)[shape]()
@@ -168,6 +175,8 @@ def run_history(rnd, steps, t):
         if u < 0.12 and s > 1:
             kind = rnd.choice(KINDS)
             pre = proj(o)
+            if pre["wr"] != 0 and kind.startswith("p"):
+                kind = rnd.choice([x for x in KINDS if not x.startswith("p")])    # (pickle refuses weak references cleanly)
             exc = ""
             try:
                 c = do_copy(o, kind)
@@ -183,6 +192,7 @@ def run_history(rnd, steps, t):
                            total2=_t2(c), orig_after=proj(o), pvread=_pv(c), haspv=1 if haspv else 0)
                 if haspv:
                     o.on_trait_change(_pv_handler, "pv", remove=True)
+                KEEP.append(o)       # former objects stay alive: what their copies weakly refer to must not vanish
                 o = c
                 if haspv:
                     o.on_trait_change(_pv_handler, "pv")
